@@ -112,6 +112,51 @@ def run_store(keys, eq, wc, rng):
     return {"ok": {k: (set(c.eq[k]), set(c.wc[k])) for k in c.eq}}
 
 
+def check_bulk(res, rng):
+    """the bulk helpers of the store: add_eqs(x, y, n) registers x+i == y+i, add_wcs(x, y, n) registers x+i ~ y-i (a helix read
+    from both ends), for i < n — in either order of x and y, overlapping, mixed with single links"""
+    from peppercompiler.design.constraint_load import Constraints
+    n = rng.randint(4, 40)
+    c = Constraints()
+    for k in range(n):
+        c.init(k)
+    eq = {k: [] for k in range(n)}
+    wc = {k: [] for k in range(n)}
+    calls = []
+    for _ in range(rng.randint(1, 5)):
+        num = rng.randint(1, max(1, n // 3))
+        if rng.random() < 0.5:
+            x, y = rng.randint(0, n - num), rng.randint(0, n - num)
+            c.add_eqs(x, y, num); calls.append(["add_eqs", x, y, num])
+            for i in range(num):
+                eq[x + i].append(y + i); eq[y + i].append(x + i)
+        else:
+            x, y = rng.randint(0, n - num), rng.randint(num - 1, n - 1)
+            c.add_wcs(x, y, num); calls.append(["add_wcs", x, y, num])
+            for i in range(num):
+                wc[x + i].append(y - i); wc[y - i].append(x + i)
+    for _ in range(rng.randint(0, 3)):
+        a, b = rng.randrange(n), rng.randrange(n)
+        if rng.random() < 0.5:
+            c.add_eq(a, b); calls.append(["add_eq", a, b]); eq[a].append(b); eq[b].append(a)
+        else:
+            c.add_wc(a, b); calls.append(["add_wc", a, b]); wc[a].append(b); wc[b].append(a)
+    res.evaluations += 1
+    res.count("store-bulk-helpers")
+    spec = bfs_spec(list(range(n)), eq, wc)
+    try:
+        c.propagate()
+        got = {k: (set(c.eq[k]), set(c.wc[k])) for k in c.eq}
+    except (AssertionError, KeyError) as e:
+        got = "raised %s" % type(e).__name__
+    if got != spec:
+        bad = next((k for k in range(n) if not isinstance(got, dict) or got.get(k) != spec[k]), None)
+        res.violations.append({"what": "links registered with the bulk helpers add_eqs / add_wcs do not give the parity closure (item %r)" % (bad,),
+                               "input": {"items": n, "calls": calls}, "observed": repr(got.get(bad)) if isinstance(got, dict) else got,
+                               "expected": repr(spec.get(bad)), "sig": "C07:store-bulk",
+                               "cmd": "from peppercompiler.design.constraint_load import Constraints  # init 0..n-1, then the listed calls, then propagate()"})
+
+
 def check_case(res, keys, eq, wc, rng, tag):
     """oracle on the real code; returns the impl result for the correspondence."""
     res.evaluations += 1
@@ -210,6 +255,8 @@ def run(st, tier, seed):
             cases.append((keys, eq, wc))
     res.exhaustive = False
     res.extra["exhaustive_small_graphs_up_to_items"] = 2 if tier == "quick" else 3
+    for _ in range(120 if tier == "quick" else 3000):
+        check_bulk(res, rng)
     reqs, impls = [], []
     for keys, eq, wc in cases:
         r = check_case(res, keys, eq, wc, rng, "rand")
